@@ -74,6 +74,26 @@ class AdmInterp(OrderInterp):
             a, b = lift(a), lift(b)
         return super().compare_values(op, a, b, node)
 
+    def sort_items(self, items: list[Any], reverse: bool, node: ast.AST) -> list[Any]:
+        try:
+            return super().sort_items(items, reverse, node)
+        except AnalysisError:
+            return list(items)          # opaque ids: whichever order; the code only tests membership per id
+
+    def binop(self, op: ast.operator, a: Any, b: Any, node: ast.AST) -> Any:
+        # set algebra over the (opaque) requested ids / known ids, e.g. `set(ids) - caches.keys()`
+        def items(v: Any) -> list[Any] | None:
+            return list(v) if isinstance(v, (list, tuple)) else list(v.keys()) if isinstance(v, dict) else None
+        x, y = items(a), items(b)
+        if x is not None and y is not None and isinstance(op, (ast.Sub, ast.BitAnd, ast.BitOr)):
+            ky = {self.key(v) for v in y}
+            if isinstance(op, ast.Sub):
+                return [v for v in x if self.key(v) not in ky]
+            if isinstance(op, ast.BitAnd):
+                return [v for v in x if self.key(v) in ky]
+            return x + [v for v in y if self.key(v) not in {self.key(w) for w in x}]
+        return super().binop(op, a, b, node)
+
     def obj_method(self, base: Obj, attr: str, node: ast.AST) -> Any:
         if base.cls == MANAGER:
             m = self.prog.resolve_method(self.manager, attr)
